@@ -167,6 +167,29 @@ def _run(V, work, tier):
         if i % 400 == 7:
             V.sample({"program": drv[i]["seq"][0][:400], "model": str(mach.nm(model[i][0]["v"])), "handler_calls": len(model[i][0]["probes"])})
     V.coverage["rethrow_identity_checks"] = nid
+    # ---- rethrow re-raises the error with the SAME data: what a handler did in place to the values it was handed is not
+    # what an outer handler receives (the Machine's data is immutable, so this relation is evaluated between real answers:
+    # the mutating inner handler against one that only looks)
+    OUT = "(handler-bind ((condition (lambda (c &rest r) (list 'outer c r)))) %s)"
+    # (lists and sorted-maps only: a handler is handed copies of those.  Arrays share their storage with every copy by
+    # design - lisp.(*LVal).Copy says so - and a handler that changes one changes THE value, which is no statement about rethrow)
+    payloads = [("(list 3 1 2)", "(stable-sort < x)"), ("(sorted-map \"field\" 1)", "(assoc! x \"seen-by\" \"inner\")"),
+                ("(sorted-map \"a\" 1 \"b\" 2)", "(dissoc! x \"a\")"), ("(list (list 2 1))", "(stable-sort < (car x))"), ("(list 5 4 (sorted-map \"k\" 1))", "(assoc! (nth x 2) \"n\" 2)")]
+    rel = []
+    for pi, (mk, mut) in enumerate(payloads):
+        for hi, inner in enumerate(("(handler-bind ((bad (lambda (c x) %s (rethrow)))) (error 'bad %s))", "(handler-bind ((bad (lambda (c x &rest r) %s (rethrow)))) (error 'bad %s 'more))",
+                                    "(handler-bind ((condition (lambda (c x) %s (rethrow)))) (handler-bind ((bad (lambda (c x) (rethrow)))) (error 'bad %s)))")):
+            rel.append({"id": "m%d/%d" % (pi, hi), "seq": [OUT % (inner % (mut, mk))], "cfg": {}})
+            rel.append({"id": "l%d/%d" % (pi, hi), "seq": [OUT % (inner % ("x", mk))], "cfg": {}})
+    rres = {r["id"]: r["runs"][0]["evals"][0] for r in driver_json(binary, ["run"], rel)}
+    for rec in rel:
+        if rec["id"][0] != "m":
+            continue
+        a, b = rres[rec["id"]], rres["l" + rec["id"][1:]]
+        if json.dumps(a["v"], sort_keys=True) != json.dumps(b["v"], sort_keys=True):
+            V.add(None, "an outer handler receives data the inner handler changed before (rethrow): %s, with a handler that only looks %s" % (json.dumps(a["v"])[:160], json.dumps(b["v"])[:160]),
+                  {"src": rec["seq"][0]})
+    V.coverage["rethrow_same_data_relations"] = len(rel) // 2
 
     tpath, summ = ktrace.record(work, binary, rnd.sample(drv, min(len(drv), 2500 if thorough else 600)), maxev=50000)
     rej, tot = ktrace.validate_all(work, tpath)
